@@ -15,7 +15,7 @@ Inductive part :=
 | Sub (size off : nat) (parts : list part).
 
 Definition part_size (p : part) : nat := match p with Hole n => n | Blob n _ _ => n | Sub n _ _ => n end.
-Definition sum_sizes (ps : list part) : nat := fold_right (fun p a => part_size p + a) 0 ps.
+Fixpoint sum_sizes (ps : list part) : nat := match ps with [] => 0 | q :: r => part_size q + sum_sizes r end.
 
 (* SPEC: doc/schema/bytes.md *)
 Fixpoint denote_part (p : part) : list N :=
@@ -60,14 +60,15 @@ Fixpoint rfo (ps : list part) (off want : nat) : list N :=
   end.
 
 (* FileReader.ReadAt(p, offset) with len(p) = want: the bytes it returns *)
-Fixpoint read_loop (ps : list part) (fuel pos want : nat) : list N :=
-  match fuel with
-  | O => []
-  | S f => match rfo ps pos want with
-           | [] => []
-           | c => c ++ read_loop ps f (pos + length c) (want - length c)
-           end
-  end.
+Definition read_loop (ps : list part) : nat -> nat -> nat -> list N :=
+  fix loop (fuel pos want : nat) : list N :=
+    match fuel with
+    | O => []
+    | S f => match rfo ps pos want with
+             | [] => []
+             | c => c ++ loop f (pos + length c) (want - length c)
+             end
+    end.
 Definition read_at (ps : list part) (off want : nat) : list N :=
   if sum_sizes ps <=? off then [] else read_loop ps (S want) off want.
 
